@@ -49,7 +49,7 @@ def main():
                     shutil.rmtree(dst)
                 shutil.copytree(md, dst)
                 meta = json.load(open(os.path.join(dst, "meta.json")))
-                meta["confirmed"] = {"round": 6, "suite": rec["tests_tail"], "demo_with_patch_exit": rec["demo_with"], "demo_without_exit": 0,
+                meta["confirmed"] = {"round": int(os.environ.get("SEED_ROUND", "7")), "suite": rec["tests_tail"], "demo_with_patch_exit": rec["demo_with"], "demo_without_exit": 0,
                                      "how": "tools/ingest_seeds.py in the agent's scratch worktree"}
                 json.dump(meta, open(os.path.join(dst, "meta.json"), "w"), indent=1, ensure_ascii=False)
 
